@@ -57,7 +57,16 @@ fn core(prop: &str, tier: u8) -> &'static Vec<SProg> {
     let mut v: Vec<SProg> = Vec::new();
     let al = alphabet_for(prop);
     match prop {
-        "C01" => v.extend(enumerate(2, if tier == 0 { 2 } else { 3 }, &*al, &well_formed)),
+        "C01" => {
+            v.extend(enumerate(2, if tier == 0 { 2 } else { 3 }, &*al, &well_formed));
+            // channels, park/unpark and rwlock cores of the other properties are part of "every mix of object kinds"
+            let ch = alphabet_for("C09");
+            v.extend(enumerate(2, if tier == 0 { 2 } else { 3 }, &*ch, &|l, th| well_formed(l, th) && distinct_sends(l)));
+            let pk = alphabet_for("C05");
+            v.extend(enumerate(2, 2, &*pk, &well_formed));
+            let lk = alphabet_for("C07");
+            v.extend(enumerate(2, 2, &*lk, &well_formed));
+        }
         "C05" => v.extend(enumerate(2, 3, &*al, &well_formed)),
         "C07" => v.extend(enumerate(2, if tier == 0 { 3 } else { 4 }, &*al, &well_formed)),
         "C08" => v.extend(enumerate(2, 3, &*al, &well_formed)),
@@ -91,6 +100,13 @@ pub fn pinned(prop: &str) -> Vec<SProg> {
     let mut v = Vec::new();
     match prop {
         "C05" | "C08" => {
+            if prop == "C08" {
+                v.push(sp(vec![vec![RLoad(0), SkipUnlessLast(1, 2), Park, CellR(0)], vec![Unpark(0), CellW(0), Unpark(0), RStore(0, 1)]]));
+                v.push(sp(vec![vec![RLoad(0), SkipUnlessLast(1, 4), RLoad(1), SkipUnlessLast(1, 2), Park, CellR(0)], vec![CellW(0), Unpark(0), RStore(0, 1)], vec![Unpark(0), RStore(1, 1)]]));
+                v.push(sp(vec![vec![Park, CellR(0)], vec![CellW(0), Unpark(0)]]));
+                v.push(sp(vec![vec![CellW(0), NNotify], vec![NWait, CellR(0)]]));
+                v.push(sp(vec![vec![Join(1), CellR(0)], vec![CellW(0)]]));
+            }
             // unpark of a thread blocked in join (property text C05)
             v.push(sp(vec![vec![Join(1)], vec![Unpark(0)]]));
             // park token delivered while the target waits for a mutex (property text C08)
@@ -139,6 +155,13 @@ pub fn pinned(prop: &str) -> Vec<SProg> {
             v.push(sp(vec![vec![Join(1), CellR(0)], vec![CellW(0)]]));
             v.push(sp(vec![vec![CellW(0), Unpark(1)], vec![Park, CellR(0)]]));
             v.push(sp(vec![vec![CellW(0), NNotify], vec![NWait, CellR(0)]]));
+            // a token that is already set: the second unpark still publishes the unparker's writes
+            v.push(sp(vec![vec![RLoad(0), SkipUnlessLast(1, 2), Park, CellR(0)], vec![Unpark(0), CellW(0), Unpark(0), RStore(0, 1)]]));
+            v.push(sp(vec![vec![RLoad(0), SkipUnlessLast(1, 4), RLoad(1), SkipUnlessLast(1, 2), Park, CellR(0)], vec![CellW(0), Unpark(0), RStore(0, 1)], vec![Unpark(0), RStore(1, 1)]]));
+            // relaxed flag alone orders nothing
+            v.push(sp(vec![vec![RLoad(0), SkipUnlessLast(1, 1), CellR(0)], vec![CellW(0), RStore(0, 1)]]));
+            // condvar hand-over with the predicate in the mutex
+            v.push(sp(vec![vec![Lock(0), CvWait, CellR(0), Unlock(0)], vec![CellW(0), Lock(0), NotifyOne, Unlock(0)]]));
         }
         _ => {}
     }
@@ -148,11 +171,11 @@ pub fn pinned(prop: &str) -> Vec<SProg> {
 fn kinds_for(prop: &str) -> (&'static str, GenOpts) {
     match prop {
         "C01" => ("lltRWTpujsrcnaawfi", GenOpts::default()),
-        "C04" => ("CCCCllRWpujsrcnwf", GenOpts { cells: true, ..Default::default() }),
+        "C04" => ("CCCCllRWpuujsrcnwfgg", GenOpts { cells: true, ..Default::default() }),
         "C05" => ("lllRWpuujsrcnwf", GenOpts { loom_arc_pct: 15, ..Default::default() }),
         "C06" => ("FFFlltRWpujsrcnawfC", GenOpts { fails: true, cells: true, loom_arc_pct: 15, ..Default::default() }),
         "C07" => ("llltttRRWWTTiiCa", GenOpts { cells: true, ..Default::default() }),
-        "C08" => ("llccnnnppuujwwffC", GenOpts { cells: true, ..Default::default() }),
+        "C08" => ("llccnnnppuuujwwffCgg", GenOpts { cells: true, ..Default::default() }),
         "C09" => ("ssssrrrrCa", GenOpts { cells: true, forget_rx_pct: 10, ..Default::default() }),
         "C10" => ("sssrrl", GenOpts { forget_rx_pct: 50, ..Default::default() }),
         _ => ("l", GenOpts::default()),
